@@ -67,7 +67,13 @@ def configs(tier, seed):
                 # a symbolic x symbolic product of this width is beyond the solver: the second factor is a constant code per
                 # configuration (every first factor is still decided), chosen so that the raw product passes 2^63 and 2^64
                 lo, hi = SP.limits(s, n)
-                for yc in ((hi, (1 << (n - 2)) + 1) if tier == 'quick' else (hi, lo if s else hi - 1, (1 << (n - 2)) + 1, rng.randrange(lo, hi + 1))):
+                if n <= 32:
+                    ycs = (hi, (1 << (n - 2)) + 1) if tier == 'quick' else (hi, lo if s else hi - 1, (1 << (n - 2)) + 1, rng.randrange(lo, hi + 1))
+                else:
+                    # (a dense 40-bit constant makes the verdict a 80-bit multiplier problem that can exceed the time budget under load:
+                    #  constants with at most three set bits)
+                    ycs = ((1 << (n - 2)) + 1,) if tier == 'quick' else ((1 << (n - 2)) + 1, (1 << (n - 2)) + (1 << 7) + 1, -((1 << (n - 3)) + 3) if s else (1 << (n - 1)) + 2)
+                for yc in ycs:
                     if tier == 'quick' and f == 0:
                         continue
                     out.append(_cfg('register', s, n, f, 'trunc', 'code', op=op, ycode=yc))
